@@ -644,7 +644,7 @@ def gen_vprogram(rng, recursive=False):
 
     sigs = [([], [])]
     for f in range(1, nf):
-        nin = rng.choice([1, 1, 1, 2])
+        nin = rng.choice([1, 2, 2, 2] if recursive else [1, 1, 1, 2])
         nout = rng.choice([0, 1, 1, 1])
         vs = rng.sample(range(nv), nin + nout)
         if rng.random() < 0.4:
@@ -805,29 +805,44 @@ def gen_vprogram(rng, recursive=False):
         else:
             a = ins[0]
             loc = [v for v in writable if v not in outs] or writable
-            if recursive and rng.random() < 0.7:
-                # terminating recursion on the first input
+            if recursive and rng.random() < 0.75:
+                # terminating recursion on the first input; the other input is a payload that the members of the
+                # cycle pass around with different constants / ranges
+                pay = ins[1] if len(ins) > 1 else a
                 cur = B.cur
                 base, rec, j = B.new(), B.new(), B.new()
                 B.edges.extend([(cur, base), (cur, rec), (base, j), (rec, j)])
-                if rng.random() < 0.4:
-                    B.emit(rand_assert(a))
-                B.cur = base; B.emit("assume %s" % _le(a, 0))
                 if rng.random() < 0.5:
-                    B.emit(rand_assert(a))
+                    B.emit(rand_assert(pay if rng.random() < 0.7 else a, others=ins))
+                    if rng.random() < 0.3:
+                        B.seq()
+                        cur = B.cur
+                        B.edges[-5:-1] = [(cur, base), (cur, rec), (base, j), (rec, j)]
+                B.cur = base; B.emit("assume %s" % _le(a, 0))
+                if rng.random() < 0.4:
+                    B.emit(rand_assert(pay, others=ins))
                 for o in outs:
-                    B.emit("assign %d E 0 %d" % (o, near()))
+                    B.emit(rng.choice(["assign %d E 0 %d" % (o, near()), "assign %d E 1 1 %d 0" % (o, pay)]))
                 B.cur = rec; B.emit("assume %s" % _ge(a, 1))
                 t = rng.choice(loc)
                 B.emit("arith sub %d %d k 1" % (t, a))
-                g = rng.choice([f, f, (f % (nf - 1)) + 1, rng.randrange(1, nf)])
-                if rng.random() < 0.4:
+                if rng.random() < 0.25:
                     B.emit(rand_assert(t, others=[a]))
-                do_call(g, argvar=t)
+                g0 = rng.choice([f, (f % (nf - 1)) + 1, (f % (nf - 1)) + 1, rng.randrange(1, nf)])
+                for _k in range(rng.choice([1, 1, 2, 2, 3])):
+                    g = g0 if rng.random() < 0.7 else rng.randrange(1, nf)
+                    if rng.random() < 0.3:
+                        B.seq()
+                    do_call(g, argvar=t)
+                    if any(writes(st, t) for st in B.blocks[B.cur][-2:]):     # t is no longer a - 1
+                        break
                 for o in outs:
                     if rng.random() < 0.7:
                         B.emit(rng.choice(["arith add %d %d k 1" % (o, o), "assign %d E 1 1 %d 0" % (o, a), "assign %d E 0 %d" % (o, near())]))
+                B.edges = [(x, y) if (x, y) != (rec, j) else (B.cur, j) for (x, y) in B.edges]
                 B.cur = j
+                if outs and rng.random() < 0.3:
+                    B.emit(rand_assert(outs[0], others=ins))
             else:
                 segs = rng.sample(["guard", "branch", "inner", "loop"], rng.randint(1, 3))
                 for sg in ["guard", "branch", "inner", "loop"]:
